@@ -4,6 +4,7 @@ import json
 import multiprocessing
 import os
 import random
+import re
 import subprocess
 import sys
 
@@ -22,6 +23,11 @@ LATE_FAILURES = [
     H + "qubit[2] q;\nint[4] k = 1;\nfor int i in [0:5] { k = k * 2; rx(k) q[0]; }\n",
     H + "qubit[2] q;\ndef f(qubit a, int[8] n) { for int j in [0:n] { h a; } }\nfor int i in [1:3] { f(q[0], i * 60); }\n",
     H + "qubit[2] q;\nbit[1] c;\nbarrier q;\nfor int i in {0, 1, 7} { h q[i]; }\n",
+    # rejected in the middle of a gate body, a nested gate body, a subroutine body, a switch arm
+    H + "gate ent a, b { h a; cx a, zz; }\nqubit[2] q;\nbit[2] c;\nent q[0], q[1];\nc = measure q;\n",
+    H + "qubit[3] q;\ngate inner(t) a { rx(t) a; rx(nope) a; }\ngate outer a, b { cx a, b; inner(0.5) b; }\nh q[0];\nouter q[0], q[1];\n",
+    H + "qubit[3] q;\ndef f(qubit[2] a, int[8] n) { h a[0]; for int i in [0:n] { x a[i]; } }\nf(q[0:2], 1);\nf(q[1:3], 3);\n",
+    H + "qubit[3] q;\nint[8] sw = 2;\nswitch (sw) { case 1 { x q[0]; } case 2 { h q[1]; h q[5]; } default { z q[0]; } }\n",
 ]
 
 
@@ -65,11 +71,37 @@ def _history_worker(args):
     if fresh is None or fresh["unroll"][0] != "error":
         return ("skip",)
     m = pyqasm.loads(src)
+    literalised = False
     for k, op in enumerate(hist):
         got = call(m, op)
         if got != fresh[op]:
+            if op == "dumps" and got[0] == "ok" and fresh[op][0] == "ok" and only_declared_sizes_differ(got[1], fresh[op][1]):
+                literalised = True
+                continue
             return ("diff", k, op, got, fresh[op])
-    return ("ok",)
+    return ("literalised",) if literalised else ("ok",)
+
+
+DECL_RE = re.compile(r"^\s*(qubit|bit)(\[[^\]]*\])?\s+(\w+);\s*$")
+LITERALISED = "C17-declaration-size-literalised-by-rejected-visit"
+
+
+def only_declared_sizes_differ(a, b):
+    """the two printed programs are the same line for line except that register declarations
+    (visitor._visit_quantum_register / _visit_classical_declaration rewrite the size of the input
+    program's declaration in place) carry a literal size in one and the written size in the other"""
+    la, lb = a.splitlines(), b.splitlines()
+    if len(la) != len(lb):
+        return False
+    for x, y in zip(la, lb):
+        if x == y:
+            continue
+        mx, my = DECL_RE.match(x), DECL_RE.match(y)
+        if not (mx and my and mx.group(1) == my.group(1) and mx.group(3) == my.group(3)):
+            return False
+        if not (mx.group(2) and re.fullmatch(r"\[\d+\]", mx.group(2))):     # the module after the visit shows a literal
+            return False
+    return True
 
 
 def _interleave_worker(args):
@@ -84,7 +116,11 @@ def _interleave_worker(args):
         outs = []
         for k, op in enumerate(hist):
             if with_others:
-                o = pyqasm.loads(others[k % len(others)])
+                try:
+                    o = pyqasm.loads(others[k % len(others)])
+                except Exception:
+                    outs.append(call(m, op))
+                    continue
                 for oop in ("validate", "unroll", "depth"):
                     try:
                         getattr(o, oop)()
@@ -116,7 +152,14 @@ def name_clash_cases():
                    H + "qubit[4] q;\nlet %s = q[1:3];\ncx %s[0], %s[1];\n" % (n, n, n),
                    H + "qubit[4] q;\ngate %s a { h a; }\n%s q[0];\n" % (n, n),
                    H + "qubit[4] q;\nconst float[64] %s = 0.5;\nrx(%s) q[0];\n" % (n, n),
-                   H + "qubit[4] q;\ndef %s(qubit a) { h a; }\n%s(q[1]);\n" % (n, n)]
+                   H + "qubit[4] q;\ndef %s(qubit a) { h a; }\n%s(q[1]);\n" % (n, n),
+                   # rejected in the middle of expanding a gate / running a subroutine / a block of that name
+                   H + "qubit[4] q;\ngate %s a, b { h a; cx a, zz; }\n%s q[0], q[1];\n" % (n, n),
+                   H + "qubit[4] q;\ngate inner a { rx(nope) a; }\ngate %s a { inner a; }\n%s q[0];\n" % (n, n),
+                   H + "qubit[4] q;\ndef %s(qubit a) { h a; h q[0]; }\n%s(q[1]);\n" % (n, n)]
+        subjects += [H + "qubit[4] q;\ngate %s a, b { h a; cx a, b; }\n%s q[0], q[1];\n%s q[1], q[2];\n" % (n, n, n),   # fine
+                     H + "qubit[4] q;\ngate inner a { s a; }\ngate %s a { inner a; inv @ inner a; }\n%s q[0];\n" % (n, n),  # fine
+                     H + "qubit[4] q;\ndef %s(qubit a) { h a; }\n%s(q[1]);\n%s(q[2]);\n" % (n, n, n)]                    # fine
     return subjects, others
 
 
@@ -204,6 +247,11 @@ def run(tier, seed, replay):
             print("replay:", res)
             if res[0] == "diff":
                 chk.violation("replayed", r)
+            if res[0] == "literalised":
+                if any(e["id"] == LITERALISED and e["status"] == "known" for e in common.load_known(PROP)):
+                    chk.known(LITERALISED)
+                else:
+                    chk.violation("replayed", r)
             return chk.finish()
         return modcheck.replay_cmd(PROP, replay)
     chk = common.Check(PROP, tier, seed)
@@ -230,6 +278,14 @@ def run(tier, seed, replay):
     nbad = 0
     n_hist = sum(1 for o in out if o[0] != "skip")
     for (src, hist), o in zip(jobs, out):
+        if o[0] == "literalised":
+            e = next((e for e in known if e["id"] == LITERALISED and e["status"] == "known"), None)
+            if e is not None:
+                chk.known("%s: %s" % (e["id"], e["what"]))
+            elif nbad < 5:
+                nbad += 1
+                chk.violation("trace_%d" % nbad, {"kind": "history", "source": src, "calls": hist,
+                                                  "what": "after a rejected visit dumps() prints register declarations with literal sizes instead of the original program"})
         if o[0] == "diff" and nbad < 5:
             nbad += 1
             chk.violation("trace_%d" % nbad, {"kind": "history", "source": src, "calls": hist[: o[1] + 1],
